@@ -42,6 +42,12 @@ CHECKS["C20"] = ("walletsim", "exploration",
   "answer classes are kept consistent with node state (a node that already has the tx answers so); a database failure of the removal transaction itself is not injected (the statement does not cover it). " + TB,
   "DESIGN.md §3.4, §6 C20")
 
+CHECKS["C06"] = ("walletsim", "exploration",
+  "deterministic simulation: whole wallet + simulated node; seeded wallet histories and transaction requests incl. 1-4 concurrent senders; eligibility oracle recomputed from the node's ground truth and an independent key derivation, script-engine verification of every input",
+  "For every transaction the real wallet creates (SendOutputs, dry CreateSimpleTx, SendOutputsWithInput) each input is checked against the set of wallet outputs derived independently from the simulated node (outputs paying to issued addresses, unspent in chain and mempool) and the six eligibility conditions of the statement (account, scope, confirmations w.r.t. the backend height, coinbase maturity, user locks, leases on the simulated clock); inputs pairwise distinct; no reuse of inputs of a transaction published before the request started; every input verifies under txscript.StandardVerifyFlags for all four default address types; explicitly selected ineligible inputs (eight kinds) must be refused. Exploration over wallet states x requests x schedules.",
+  "requests are issued at synchronised points so that the wallet's view equals the node's; inside a parallel section only the cross-transaction and signature conditions are decided; FundPsbt is not driven; conservation and fee floor are asserted as side conditions (not a C07 claim). " + TB,
+  "DESIGN.md §3.4, §6 C06")
+
 NOT_APPLICABLE = [
  {"property_id": "C07", "reason": "pure function of its input (outputs, fee rate, coin list, change script): no schedule, clock, I/O, fault or history for a simulator to own; the deciding technique would be input enumeration/property-based testing, which is a different family (DESIGN.md §7)"},
 ]
